@@ -81,7 +81,8 @@ fn nchild(d: &ArrayData, n: usize) -> VResult {
 
 fn child_type(d: &ArrayData, i: usize, f: &Field) -> VResult {
     let c = &d.child_data()[i];
-    if c.data_type() != f.data_type() {
+    // names and metadata of nested fields are schema, not array layout
+    if !c.data_type().equals_datatype(f.data_type()) {
         return err(format!(
             "child {i} has type {} but field declares {}",
             c.data_type(),
@@ -192,7 +193,19 @@ fn spec_validate_inner(d: &ArrayData) -> VResult {
             typed::<i32>(&d.buffers()[0], off.checked_mul(2).ok_or("ovf")?, len.checked_mul(2).ok_or("ovf")?, "interval day-time")?;
             Ok(())
         }
-        Interval(IntervalUnit::MonthDayNano) | Decimal128(_, _) => fixed::<i128>(d, off, len),
+        // month-day-nano is {i32, i32, i64}: 16 bytes wide, 8-byte aligned
+        Interval(IntervalUnit::MonthDayNano) => {
+            nbuf(d, 1)?;
+            nchild(d, 0)?;
+            typed::<u64>(
+                &d.buffers()[0],
+                off.checked_mul(2).ok_or("ovf")?,
+                len.checked_mul(2).ok_or("ovf")?,
+                "interval month-day-nano",
+            )?;
+            Ok(())
+        }
+        Decimal128(_, _) => fixed::<i128>(d, off, len),
         Decimal256(_, _) => fixed::<i256>(d, off, len),
         Utf8 => bytes_like::<i32>(d, off, len, true),
         LargeUtf8 => bytes_like::<i64>(d, off, len, true),
@@ -640,7 +653,7 @@ pub fn check_batch(b: &RecordBatch) -> VResult {
         ));
     }
     for (i, (f, c)) in s.fields().iter().zip(b.columns()).enumerate() {
-        if f.data_type() != c.data_type() {
+        if !f.data_type().equals_datatype(c.data_type()) {
             return err(format!(
                 "column {i} has type {} but schema says {}",
                 c.data_type(),
